@@ -89,7 +89,9 @@ Definition guess_filepath (m : fsmap) (p : patch) (o : options) : list N :=
   if negb (str_eqb (old_path p) devnull) && exists_ m (old_path p) then old_path p
   else if negb (str_eqb (new_path p) devnull) && exists_ m (new_path p) then new_path p
   else if negb (str_eqb (index_path p) devnull) && exists_ m (index_path p) then index_path p
-  else if is_adding_file p o then (if reverse_patch_opt o then old_path p else new_path p)
+  else if is_adding_file p o then
+    let path := if reverse_patch_opt o then old_path p else new_path p in
+    if str_eqb path devnull then [] else path
   else [].
 
 Definition output_path (o : options) (p : patch) (file_to_patch : list N) : list N :=
